@@ -35,8 +35,6 @@ package abci
 
 //@ func proposalState.setResults
 //@   props C01
-//@   safety nil
-//@   requires ps != nil
 //@   modifies *ps
 //@   ensures ps.resultsBeginBlock == resultsBeginBlock && ps.resultsEndBlock == resultsEndBlock
 
